@@ -608,7 +608,126 @@ def replay_c10(d, case):
     return False, 'covering grid equal'
 
 
-HANDLERS = {'c10': replay_c10, 'c08': replay_c08, 'c02': replay_c02, 'c01': replay_c01, 'c15_list': replay_c15_list, 'tool': replay_tool, 'c20': replay_c20}
+class _CRef:
+    pass
+
+
+def _cref(R):
+    r = _CRef()
+    r.fields, r.lo, r.hi, r.dx = R['fields'], R['lo'], R['hi'], R['dx']
+    r.ncell = [tuple(n) for n in R['ncell']]
+    r.boxes = [[(tuple(a), tuple(b)) for a, b in lv] for lv in R['boxes']]
+    r.nlev = len(r.boxes)
+    r.ndims = 3
+    r.data = [[_arr_from_hex(a) for a in lv] for lv in R['data']]
+    return r
+
+
+def _slice_oracle_concrete(r, lim, cn, pos, comp):
+    """The C07 specification on floats (same rule as oracles.slice3d, written out independently)."""
+    cx, cy = [d for d in range(3) if d != cn]
+    nx, ny = r.ncell[lim][cx], r.ncell[lim][cy]
+    out = np.full((ny, nx), np.nan)
+    levs = np.full((ny, nx), -1.0)
+    allowed = [[[] for _ in range(nx)] for _ in range(ny)]
+    br = []
+    for l in range(lim + 1):
+        cs = [r.lo[cn] + (m + 0.5) * r.dx[l][cn] for m in range(r.ncell[l][cn])]
+        mL = mR = None
+        for m, c in enumerate(cs):
+            if abs(pos - c) <= 1e-8 + 1e-5 * abs(c):
+                mL = mR = m
+                break
+            if pos > c:
+                mL = m
+            else:
+                mR = m
+                break
+        if mL is None:
+            mL = mR
+        if mR is None:
+            mR = mL
+        br.append((mL, mR))
+    for iy in range(ny):
+        for ix in range(nx):
+            levels = []
+            for l in range(lim + 1):
+                f = 2 ** (lim - l)
+                for (blo, bhi) in r.boxes[l]:
+                    if blo[cx] <= ix // f <= bhi[cx] and blo[cy] <= iy // f <= bhi[cy] and \
+                            r.lo[cn] + blo[cn] * r.dx[l][cn] <= pos <= r.lo[cn] + (bhi[cn] + 1) * r.dx[l][cn]:
+                        levels.append(l)
+                        break
+            allowed[iy][ix] = levels
+            samp = []
+            for side in (0, 1):
+                got = None
+                for l in reversed(levels):
+                    f = 2 ** (lim - l)
+                    cell = [0, 0, 0]
+                    cell[cx], cell[cy], cell[cn] = ix // f, iy // f, br[l][side]
+                    for b, (blo, bhi) in enumerate(r.boxes[l]):
+                        if all(blo[d] <= cell[d] <= bhi[d] for d in range(3)):
+                            idx = tuple(cell[d] - blo[d] for d in range(3))
+                            got = (r.data[l][b][idx + (comp,)], r.lo[cn] + (br[l][side] + 0.5) * r.dx[l][cn])
+                            break
+                    if got is not None:
+                        break
+                samp.append(got)
+            if samp[0] is None or samp[1] is None:
+                continue
+            (L, xL), (R_, xR) = samp
+            out[iy, ix] = R_ if xL == xR else (L * (xR - pos) + R_ * (pos - xL)) / (xR - xL)
+    return out, allowed
+
+
+def replay_c07(d, case):
+    import contextlib, io
+    from amr_kitchen.mandoline.mandoline import Mandoline
+    fields, limit, serial, cn = case['args']
+    r = _cref(case['ref'])
+    lim = r.nlev - 1 if limit is None else limit
+    pos = case['pos']
+    posv = pos if pos is not None else (r.lo[cn] + r.hi[cn]) / 2
+    inside = r.lo[cn] <= posv <= r.hi[cn]
+    msgs = []
+    for poison in (1.2345e5, -7.75e3):
+        # uninitialised memory: numpy hands recently freed blocks back to np.empty
+        cx, cy = [dd for dd in range(3) if dd != cn]
+        junk = [np.full((r.ncell[lim][cx], r.ncell[lim][cy]), poison) for _ in range(64)]
+        del junk
+        with contextlib.redirect_stdout(io.StringIO()):
+            try:
+                out = Mandoline(os.path.join(d, 'plt'), fields=list(fields), limit_level=limit, serial=serial, verbose=0).slice(normal=cn, pos=pos, fformat='return')
+            except ValueError as e:
+                if not inside:
+                    return False, 'refused as required'
+                return True, 'an in-domain position is refused: %s' % e
+            except Exception as e:
+                return True, 'raised %s: %s' % (type(e).__name__, e)
+        if not inside:
+            return True, 'a position outside the domain is answered'
+        names = list(r.fields) if fields == ['all'] else [f for f in fields if f != 'grid_level']
+        for name in names:
+            exp, allowed = _slice_oracle_concrete(r, lim, cn, posv, r.fields.index(name))
+            got = np.asarray(out[name], dtype=float)
+            if got.shape != exp.shape:
+                return True, 'output[%r] has shape %s, expected %s' % (name, got.shape, exp.shape)
+            bad = ~np.isclose(got, exp, rtol=1e-9, atol=1e-12, equal_nan=False)
+            if bad.any():
+                iy, ix = np.argwhere(bad)[0]
+                return True, 'output[%r][%d, %d] = %r, specification %r (pos = %r)' % (name, iy, ix, got[iy, ix], exp[iy, ix], posv)
+        if fields == ['all'] or 'grid_level' in fields:
+            exp, allowed = _slice_oracle_concrete(r, lim, cn, posv, 0)
+            g = np.asarray(out['grid_level'], dtype=float)
+            for iy in range(g.shape[0]):
+                for ix in range(g.shape[1]):
+                    if g[iy, ix] not in [float(l) for l in allowed[iy][ix]]:
+                        return True, 'grid_level[%d, %d] = %r, levels with a box there: %s' % (iy, ix, g[iy, ix], allowed[iy][ix])
+    return False, 'every pixel equals the specification'
+
+
+HANDLERS = {'c07': replay_c07, 'c10': replay_c10, 'c08': replay_c08, 'c02': replay_c02, 'c01': replay_c01, 'c15_list': replay_c15_list, 'tool': replay_tool, 'c20': replay_c20}
 
 
 def register(name):
